@@ -226,6 +226,35 @@ func main() {
 				}
 			}
 		}
+		// the same, not yet known name from many goroutines at once (released
+		// together): everybody must get the same id
+		for round := 0; round < 60 && len(res.Violations) < 5; round++ {
+			name := fmt.Sprintf("fresh-%d-%d", h, round)
+			const g = 8
+			got := make([]uint32, g)
+			var rw sync.WaitGroup
+			gate := make(chan struct{})
+			for i := 0; i < g; i++ {
+				rw.Add(1)
+				go func(i int) {
+					defer rw.Done()
+					<-gate
+					got[i] = st.AddType(name)
+				}(i)
+			}
+			close(gate)
+			rw.Wait()
+			res.TypeChecks++
+			for i := 1; i < g; i++ {
+				if got[i] != got[0] {
+					res.Violations = append(res.Violations, fmt.Sprintf("type name %q registered concurrently by %d goroutines was given different ids: %v", name, g, got))
+					break
+				}
+			}
+			if n, err := st.GetTypeName(got[0]); err != nil || n != name {
+				res.Violations = append(res.Violations, fmt.Sprintf("GetTypeName(%d) = %q, %v; registered as %q", got[0], n, err, name))
+			}
+		}
 		if len(res.Violations) > 5 {
 			break
 		}
